@@ -113,7 +113,7 @@ NEG_CONTROLS = [
 
 
 def neg_control(ctx, name, text, want):
-    r = ctx.tlc("Changelog", text, count=False, workers=1, want_tags=set())
+    r = ctx.tlc("Changelog", text, count=False, workers=1, want_tags=set(), java_opts=cc.jopts(ctx))
     if r.violated not in want:
         raise core.MachineryError("spec-level negative control Bug=%s: expected one of %s violated, TLC reports %r"
                                   % (name, sorted(want), r.violated))
@@ -349,8 +349,8 @@ def run(ctx):
     controls_now = [n for n in NEG_CONTROLS if not quick or n[0] in ("noBranch:CNoDetailsReject", "trailingFirst")]
     with ThreadPoolExecutor(max_workers=4 if quick else 3) as ex:
         f_traces = ex.submit(cc.validate, ctx, traces)
-        futs = {name: ex.submit(ctx.tlc_must_hold, "Changelog", c, workers=w, want_tags=tags) for name, c, w, tags in jobs[1:]}
-        futs["lts"] = ex.submit(ctx.tlc_must_hold, "Changelog", jobs[0][1], workers=1, want_tags={"EDGE"})
+        futs = {name: ex.submit(ctx.tlc_must_hold, "Changelog", c, workers=w, want_tags=tags, java_opts=cc.jopts(ctx)) for name, c, w, tags in jobs[1:]}
+        futs["lts"] = ex.submit(ctx.tlc_must_hold, "Changelog", jobs[0][1], workers=1, want_tags={"EDGE"}, java_opts=cc.jopts(ctx))
         negs = {name: ex.submit(neg_control, ctx, name, text, want) for name, text, want in controls_now}
         for name, f in futs.items():
             res[name] = f.result()
